@@ -60,9 +60,11 @@ def verify_seek_until(run, tier, prefix='C06/seek_until', total=True, data=b'sta
                     ctx.oblige(prefix + '/exit.right-after-the-first-occurrence', reader.pos == state['pstar'] + L)
                 raise pathsmod.PathCut('exit')
             try:
-                it.exec_block(stmt.body, fr)
-            except (BreakSig, ContinueSig):
-                raise Unsupported('break/continue in seek_until')
+                it.exec_loop_body(stmt.body, fr)
+            except ContinueSig:
+                pass          # `continue` ends the step like falling off the end of the body
+            except BreakSig:
+                raise Unsupported('break in seek_until')
             nf = it.lookup(state['wname'], fr)
             okf = isinstance(nf, stream.FBytes)
             ctx.oblige(prefix + '/loop.inv.preserve.window-is-the-last-bytes-read',
@@ -123,7 +125,7 @@ def verify_print_with_count(run, tier):
             before = len(out.items)
             it.assign(stmt.target, x, fr)
             try:
-                it.exec_block(stmt.body, fr)
+                it.exec_loop_body(stmt.body, fr)
                 broke = False
             except BreakSig:
                 broke = True
